@@ -350,6 +350,25 @@ func ruleErrFlow(c *Ctx, r *Reporter) {
 					}
 				}
 			}
+			// the same for a refresh: the request that was reconciled may be Refreshing (with its own id)
+			refresh := false
+			for _, ia := range allInstrs(cs) {
+				switch x := ia.In.(type) {
+				case *ssa.Call:
+					if c.calleeName(x) == "reconciler.(Status).IsPendingOrRefreshing" {
+						refresh = true
+					}
+				case *ssa.BinOp:
+					for _, op := range []ssa.Value{x.X, x.Y} {
+						if a, ok := isLoad(op); ok {
+							if g, ok := a.(*ssa.Global); ok && g.Name() == "StatusKindRefreshing" && x.Op == token.EQL {
+								refresh = true
+							}
+						}
+					}
+				}
+			}
+			r.checkP([]string{"C16", "C14"}, refresh, "reconciler.(incremental).commitStatus|the result of a refresh is applied while the object still shows the Refreshing request", c.posStr(cs.Pos()), "the fallback write accepts the Refreshing request (same id) like the Pending one", "when the status commit of a refresh loses the revision check to an unrelated write, the result is dropped because the fallback only recognises a Pending request: a failed refresh gets no Error status and no queued retry, the object (still Refreshing) comes straight back through the change stream and the failed operation is attempted again at once, without the minimum backoff")
 			r.checkP([]string{"C14", "C15"}, applied, "reconciler.(incremental).commitStatus|a retry's result is applied while the object still shows this reconciler's Error", c.posStr(cs.Pos()), "the fallback write is also taken when the current status is the Error written for the previous attempt", "when the status commit of a retry loses the revision check to an unrelated write (another reconciler's status), the result is dropped although the object still carries this reconciler's Error: the retry was already forgotten (success) or is not re-queued (failure), objects in Error are skipped by the change stream, so the object stays in Error for ever")
 		}
 		r.check(good, "reconciler.(incremental).commitStatus|failed results are queued", c.posStr(cs.Pos()), "result.err != nil (status written) -> retries.Add(..., result.err)", "commitStatus does not queue a retry for a failed result: the object stays in Error forever")
@@ -739,6 +758,7 @@ func ruleReconcilerWrites(c *Ctx, r *Reporter) {
 				collect := func(facts []edgeFact) []string {
 					need := map[string]bool{"errors.Is": false, "exists": false, "Kind": false}
 					pendingKind, errorKind, id := false, false, false
+					_ = pendingKind
 					for _, f := range facts {
 						if !f.Val {
 							continue
@@ -747,6 +767,10 @@ func ruleReconcilerWrites(c *Ctx, r *Reporter) {
 						case *ssa.Call:
 							if c.calleeName(x) == "errors.Is" {
 								need["errors.Is"] = true
+							}
+							// the request that was reconciled: Pending or Refreshing, each with its own id
+							if c.calleeName(x) == "reconciler.(Status).IsPendingOrRefreshing" {
+								pendingKind = true
 							}
 						case *ssa.Extract:
 							need["exists"] = true
